@@ -9,9 +9,9 @@ sys.path.insert(0, VERIF)
 from sigstat import selftest as st
 sys.argv, _argv = [sys.argv[0], "none"], sys.argv
 spec = importlib.util.spec_from_loader("auto_benign", loader=None)
-src = open(os.path.join(VERIF, "tools", "auto_benign.py")).read().replace("sys.exit(main())", "")
+from sigstat import transforms as _tr
 ab = {"__file__": os.path.join(VERIF, "tools", "auto_benign.py"), "__name__": "auto_benign"}
-exec(compile(src, "auto_benign.py", "exec"), ab)
+ab["transform"] = _tr.transform
 expected = json.load(open(os.path.join(st.SEEDED, "expected.json")))
 sel = _argv[1:]
 
